@@ -92,7 +92,7 @@ CFGS = {
     # track list files
     "tfq": dict(InitVals="ValsTr", EmLists="ListsTfQ", EvLists="NoLists", TimeLists="TimeListsTfQ", Times="{4}",
                 MinRs="{0}", MutRs="{3}", MinDists="{0}", TlLists="TlListsTfQ", MinDurs="{0}", MaxDrops=20, MaxEms=0, MaxRefs=4, MaxEv=0,
-                MaxTcs=0, MaxTrks=5, MaxLen=3, Depth=5, Ops="OpsTfQ"),
+                MaxTcs=0, MaxTrks=5, MaxLen=3, Depth=4, Ops="OpsTfQ"),
     "tf4": dict(InitVals="ValsTr", EmLists="ListsTr", EvLists="NoLists", TimeLists="TimeListsTr", Times="{4}",
                 MinRs="{0}", MutRs="{3}", MinDists="{0}", TlLists="TlListsA", MinDurs="{0}", MaxDrops=20, MaxEms=0, MaxRefs=5, MaxEv=0,
                 MaxTcs=0, MaxTrks=5, MaxLen=3, Depth=4, Ops="OpsTf"),
